@@ -99,8 +99,11 @@ func judgeInvalidation(r *Run, j *Judged, cl []*cls) {
 			if setSeq == 0 || setSeq >= u.SeqInv {
 				continue // stored concurrently with / after the unsafe request
 			}
-			if cx.H != nil && cx.H.SeqResp >= u.SeqInv {
-				continue // validated by a 304 the origin sent while / after it handled the unsafe request
+			if cx.H != nil && cx.H.Call != nil && cx.H.Call.SeqStart >= u.SeqInv {
+				// validated by a 304 to a request that reached the origin while / after it handled the unsafe one.
+				// (A 304 speaks about the resource as it was when its request arrived: one asked for before the
+				// unsafe request and delivered after it confirms nothing about the state the unsafe request left.)
+				continue
 			}
 			// "stored earlier" means: the exchange that stored B had finished all its store writes (entry and
 			// index) before the unsafe request began, and no validation of the resource was still at work while
@@ -110,9 +113,26 @@ func judgeInvalidation(r *Run, j *Judged, cl []*cls) {
 			if cx.B.Call != nil && r.lastSeqOfLineage(cx.B.Call) >= u.SeqInv {
 				continue
 			}
+			// (a validation in flight across the unsafe request that is answered 304 is no such overlap: once the
+			// invalidation has removed the entry from the index there is nothing for the 304 to freshen, and
+			// writing the old response back would undo the invalidation)
 			overlapping := false
 			for _, o := range r.Calls {
 				if o.Res == cx.B.Res && safeMethods[o.Req.Method] && o.SeqStart < u.SeqRet && r.lastSeqOfLineage(o) > u.SeqInv {
+					if o.Resp != nil && o.Resp.Is304 && !o.Resp.Bare && o.Ended && o.Resp.SeqResp > u.SeqRet {
+						// ... unless somebody has stored a response for the URI again before the 304 arrived: the
+						// new entry may have the key of the old one, and the late write-back landing on it is the
+						// lost-update race between two storing exchanges, not a matter of invalidation
+						again := false
+						for _, o2 := range r.Calls {
+							if o2 != o && o2.Res == cx.B.Res && safeMethods[o2.Req.Method] && o2.SeqStart >= u.SeqInv && o2.SeqStart < r.lastSeqOfLineage(o) {
+								again = true
+							}
+						}
+						if !again {
+							continue
+						}
+					}
 					overlapping = true
 				}
 			}
